@@ -36,6 +36,12 @@ CHECKS = {
    design_ref="DESIGN.md section 4 C07",
    note="Assumed: Python dict/tuple equality semantics, IEEE == of float payloads, injectivity of float repr on non-NaN values. Known finding (open): NaN payloads are never shared (harmless duplicates). Expr.__new__'s operand normalisation and the alternative constant context are not under contract; operator arities enumerated to 4; O4/O5 are exhaustive finite enumerations, not SMT.",
    technique="contract-based deductive verification: real key/registration functions on abstract objects, injectivity obligations in QF_FP/LIA/UF discharged by z3; invariant (WF) preserved by the registration contract"),
+ "C04": dict(
+   category="proof",
+   text="Local soundness of the rewriter as verification conditions over the REAL code: every Rewriter rule method for the float/boolean kinds is run on abstract expressions with holes (lazy, exhaustive shape refinement exactly as deep as the code inspects; aliasing and key order forked; symbolic constant payloads) and every path yields `hypotheses => [[result]] = [[input]]` under an independent denotation - Real semantics with definedness, and SMT floating point (float32 and Python-float passes) under the statement's no-NaN/overflow/underflow precondition; every non-None entry of the three relational tables is a closed FP fact for float16/32/64; every case of the sign/zero inference is sound under the contract answers of its operands (structural induction); rules never raise on well-typed input. Composition to whole DAGs by congruence (lemma). quick: FP passes of the comparison/select/logical rules are left to the thorough tier.",
+   design_ref="DESIGN.md section 4 C04, section 2 E3",
+   note="Trusted: vf/denote.py; in-place shadows of module globals (isinstance, abs, min, max, bool, float, math, numpy) and the extended *_types tuples. Assumed: operands are rewriter fix-points (bottom-up traversal); kinds the code never names behave like an opaque leaf; constants' like is a symbol; inference answers of opaque operands are the strongest ones supported by a forked sign/finiteness knowledge class. NOT covered: complex, integer, list/item, apply, bitwise kinds; Expr.rewrite traversal and RewriteContext memo; termination. Known finding (open): sign inference of a quotient with infinite operands / signed-zero divisor (FP clause). `_is_finite` soundness is attempted but not claimed (never acted upon).",
+   technique="contract-based deductive verification: symbolic execution of the real rule/inference methods on abstract expressions (holes), per-path verification conditions against an independent denotational semantics, discharged by z3 (QF_NRA / QF_FP); table rows as closed SMT facts"),
 }
 NA_PENDING = "check not built yet in this session (planned, see DESIGN.md section 4)"
 NA = {
@@ -67,6 +73,7 @@ def main():
       "engines": [
         {"name": "E0 core", "path": "vf/core.py", "serves_properties": sorted(CHECKS), "kind_free_text": "obligation pool, z3/cvc5 portfolio, verdict protocol, evidence/replay writer"},
         {"name": "E2 symrun", "path": "vf/symrun.py", "serves_properties": ["C07", "C14", "C18", "C19"], "kind_free_text": "runs real code objects on symbolic NumPy scalars / ints with shadowed builtins; decision-prefix path forking; per-path VCs"},
+        {"name": "E3 symexpr", "path": "vf/symexpr.py", "serves_properties": ["C04"], "kind_free_text": "abstract expressions with holes: lazy shape refinement, aliasing, key-order and inference-knowledge forks over the real Rewriter/Expr code; vf/denote.py semantics; vf/witness.py native replay"},
         {"name": "E4 ring", "path": "vf/ring.py", "serves_properties": ["C16"], "kind_free_text": "canonical-form polynomial/rational-function arithmetic with path forking on zero tests"},
       ],
       "checks": checks,
